@@ -39,6 +39,8 @@ def gen_rules(rng, nmin=5, nmax=14, cyclic=False):
         di = [x for x in inputs if x in rest]
         if di and rng.random() < 0.25:
             r["disc"] = rng.sample(di, 1)
+        if (si or fo) and rng.random() < 0.6:
+            r["ord"] = rng.choice(["rsf", "rfs", "srf", "sfr", "frs", "fsr"])
         rules[i] = r
     return ni, n, rules
 
@@ -48,6 +50,8 @@ def rule_line(k, r):
     for f in ("req", "single", "follow", "disc"):
         if r.get(f):
             parts.append("%s=%s" % (f, ",".join(map(str, r[f]))))
+    if r.get("ord"):
+        parts.append("ord=%s" % r["ord"])
     if "br" in r:
         s, a, b = r["br"]
         parts.append("br=%d:%s:%s" % (s, ",".join(map(str, a)), ",".join(map(str, b))))
